@@ -490,7 +490,7 @@ def oracle_history(case, rec):
 # ----------------------------------------------------- data-derived subclasses
 
 DERIVED = ["tsonis", "spearman", "partial", "mutual_info", "havlin",
-           "hilbert", "coupled_tsonis", "event_series"]
+           "hilbert", "coupled_tsonis", "event_series", "rainfall"]
 
 
 def _climate_data(case, key="data", nkey="n"):
@@ -541,6 +541,8 @@ def build_derived(case, threshold=None, link_density=None):
                                        **kw)
     if cls == "hilbert":
         return pc.HilbertClimateNetwork(data, directed=case["directed"], **kw)
+    if cls == "rainfall":
+        return pc.RainfallClimateNetwork(data, event_threshold=(0, 1), **kw)
     raise ValueError(cls)
 
 
